@@ -109,6 +109,14 @@ CHECKS["C04"] = dict(
     note="Not decided: exceptions or non-termination inside regex/hyperscan/lxml/pyahocorasick/diff-match-patch on hostile strings; get_citations glue beyond the interpreted helpers. Bounds as in C02, C06, C09, C12.", technique=SYMEX, design_ref="DESIGN.md section 3, C04",
 )
 
+CHECKS["C14"] = dict(
+    engine="symex+rex", category="other",
+    text="PARTIAL. Decided on the real source: (a) the byte->character offset table of HyperscanTokenizer.extract_tokens on texts with symbolic UTF-8 widths and arbitrary byte hits (aligned+confirmed hits yield exactly one token with the right character offsets, others none, nothing raises); (b) every pattern handed to hyperscan has the same Python-level language as the extractor's own pattern (z3 regex equivalence for each pattern convert_regex changes; flags mapped); (c) hyperscan_db returns a loaded or freshly compiled database and does not raise for any documented loadb outcome. The multi-byte-neighbour miss is a known finding (replayed, printed as KNOWN-FINDING).",
+    note="NOT decided: which byte ranges Hyperscan reports, hence the clause 'reports every candidate the reference reports' (Hyperscan's matcher is C code outside this technique). Bounds: <=3/4 characters, <=2/3 hits. The old-signature (hyperscan<0.5) TypeError fallback is outside. Concrete add-ons (not solver results): in-domain differential texts, damaged cache files.",
+    technique="symbolic execution of the Python source + z3; regex equivalence by z3's regex solver; contract stubs for the hyperscan module",
+    design_ref="DESIGN.md section 3, C14",
+)
+
 PENDING = {}
 
 NOT_APPLICABLE = {
